@@ -117,7 +117,7 @@ let rec_dec (s : string) : style * src =
 let parse_outcome (cell : string -> 'c) (k : int) (s : string) : 'c outcome =
   if s = "END" then Ok None
   else if s = "PANIC" then Panic O
-  else if s = "CAP" then OutOfFuel
+  else if s = "CAP" || s = "HANG" then OutOfFuel
   else if s = "E:io" then Err eIo
   else if s = "E:nom" then Err eNom
   else if s = "E:inv" then Err eInvalid
@@ -192,7 +192,7 @@ let run_case (type c) ~(fmt : string) ~(mode : string) ~(get : string -> string 
         string_of_bytes (print_file pr pre rs suf)
     | None, None, None -> "" in
   (match obs_field "fnv" with
-   | Some h -> if h <> fnv64 data then set "DIFF printed-file-differs-from-coq-printer"
+   | Some h -> if h <> fnv64 data && obs_field "obs" <> Some "HANG" then set "DIFF printed-file-differs-from-coq-printer"
    | None -> set "DIFF no-fnv");
   (* observations *)
   let groups = split '|' (Option.value (obs_field "obs") ~default:"") in
@@ -275,6 +275,8 @@ let () =
         let verdict =
           try
             match fmt with
+            | ("jaspar" | "jaspar16" | "uniprobe") when obs_field "obs" = Some "HANG" ->
+                "PROPFAIL hang-watchdog-expired (a call into the reader did not return)"
             | "jaspar" | "jaspar16" ->
                 let precord = if fmt = "jaspar" then j_record false else j16_record alphabet in
                 let k = if fmt = "jaspar" then 5 else k in
